@@ -3,7 +3,13 @@
 package daemon
 
 import (
+	"context"
+
 	"github.com/AliyunContainerService/terway/pkg/aliyun/client"
+	"github.com/AliyunContainerService/terway/pkg/eni"
+	"github.com/AliyunContainerService/terway/pkg/k8s"
+	"github.com/AliyunContainerService/terway/pkg/storage"
+	"github.com/AliyunContainerService/terway/types"
 	"github.com/AliyunContainerService/terway/rpc"
 	"github.com/AliyunContainerService/terway/types/daemon"
 )
@@ -20,3 +26,19 @@ func VerifCheckInstance(limit *client.Limits, daemonMode string, config *daemon.
 
 // VerifDefaultForNetConf exposes defaultForNetConf.
 func VerifDefaultForNetConf(netConf []*rpc.NetConf) error { return defaultForNetConf(netConf) }
+
+// VerifNewService builds the daemon's RPC service around the given collaborators (ENI multi-IP mode).
+func VerifNewService(k k8s.Kubernetes, db storage.Storage, mgr *eni.Manager, v4, v6 bool) rpc.TerwayBackendServer {
+	return &networkService{daemonMode: daemon.ModeENIMultiIP, k8s: k, resourceDB: db, eniMgr: mgr, enableIPv4: v4, enableIPv6: v6, ipamType: types.IPAMTypeDefault}
+}
+
+// VerifGC runs one garbage-collection pass of the service.
+func VerifGC(ctx context.Context, s rpc.TerwayBackendServer) error { return s.(*networkService).gcPods(ctx) }
+
+// VerifFilterENINotFound exposes the start-up filter of stored allocations.
+func VerifFilterENINotFound(podResources []daemon.PodResources, attached map[string]*daemon.ENI) []daemon.PodResources {
+	return filterENINotFound(podResources, attached)
+}
+
+// VerifGetPodResources converts the store's listing.
+func VerifGetPodResources(list []interface{}) []daemon.PodResources { return getPodResources(list) }
